@@ -322,7 +322,8 @@ func runParent(ck *Check, tier Tier, nworkers int) int {
 				}
 				merged.Truncated = true // the subtree below the crashing execution is not explored
 				mu.Unlock()
-				skips = append(skips, entry)
+				// one confirmed process death condemns the rest of that scenario: it is reported, not explored further
+				skips = append(skips, entry, strings.SplitN(entry, "|", 2)[0]+"|*")
 			}
 		}(w)
 	}
